@@ -175,7 +175,9 @@ def lex11 : Lex11 String String String where
                name := (String.ofList (stripSlash nm)).toLower }
       | _, _, _, _, _ => none
     | _ => none
-  digit0 := fun s => match skipWs s.toList with | c :: _ => isDig c | [] => false
+  digit0 := fun s => match skipWs s.toList with
+    | c :: r => isDig c || (Cherab.Gen.AdfLex.probeAcceptsMinus && c == '-' && (match r with | d :: _ => isDig d | [] => false))
+    | [] => false
   dash := fun s => startsDashes2 (skipWs s.toList)
   cdash := fun s => startsDashes2 ((skipWs s.toList).dropWhile (· == 'C'))
   c1dash := fun s => match skipWs s.toList with | 'C' :: r => startsDashes2 r | _ => false
@@ -463,5 +465,90 @@ def text15 : K15 String String String → String
   | .idxH isel wl up lo typ => "C" ++ rjn 5 isel ++ "." ++ rj 12 wl ++ "    N=" ++ rjn 2 up ++ " - N=" ++ rjn 2 lo ++ "    " ++ typName typ
   | .idxC dot isel wl up lo typ => "C" ++ rjn 5 isel ++ (if dot then "." else " ") ++ rj 12 wl ++ "   " ++ rjn 3 up ++ "(2)1( 2.5)-"
       ++ rjn 3 lo ++ "(2)0( 0.5)  " ++ typName typ
+
+/-! ## the literals this file transcribes
+
+Copied from the sources when the recognisers above were written; `Props/C08.lean` proves that the table which the
+translator regenerates from /repo on every run (`Gen/AdfLex.lean`) is still this one.  (The resolved-file probe of
+parse_adf11 is not in the list: it is `Gen.AdfLex.probeRegex`, summarised by `probeAcceptsMinus`, because its repair
+is prepared.) -/
+
+def pinnedRegexes : List (String × String) := [
+  ("adf11.py:parse_adf11:re.split1", "\\s{2,}"),
+  ("adf11.py:parse_adf11:re.match1", "^\\s*C{0}-{2,}"),
+  ("adf11.py:parse_adf11:re.sub1", "\\n*\\s+"),
+  ("adf11.py:parse_adf11:re.match2", "^\\s*C*-{2,}"),
+  ("adf11.py:parse_adf11:re.sub2", "\\n*\\s+"),
+  ("adf11.py:parse_adf11:re.match3", "^\\s*C{1}-{2,}"),
+  ("adf11.py:parse_adf11:re.match4", "^\\s*C{0,1}-{2,}"),
+  ("adf11.py:parse_adf11:re.match5", "^\\s*C\\n"),
+  ("adf11.py:parse_adf11:re.search1", "Z1\\s*=*\\s*[0-9]+\\s*"),
+  ("adf11.py:parse_adf11:re.sub3", "Z1[\\s*=]"),
+  ("adf11.py:parse_adf11:re.search2", "IGRD\\s*=*\\s*[0-9]+\\s*"),
+  ("adf11.py:parse_adf11:re.search3", "IGRD\\s*=*\\s*[0-9]+\\s*"),
+  ("adf11.py:parse_adf11:re.search4", "IPRT\\s*=*\\s*[0-9]+\\s*"),
+  ("adf11.py:parse_adf11:re.search5", "IPRT\\s*=*\\s*[0-9]+\\s*"),
+  ("adf15.py:parse_adf15:re.match1", "^\\s*(\\d*) {4}/(.*)/?\\s*$"),
+  ("adf15.py:_scrape_metadata_hydrogen:pec_index_header_match", "^C\\s*ISEL\\s*WAVELENGTH\\s*TRANSITION\\s*TYPE"),
+  ("adf15.py:_scrape_metadata_hydrogen:pec_hydrogen_transition_match", "^C\\s*([0-9]*)\\.\\s*([0-9]*\\.[0-9]*)\\s*N=\\s*([0-9]*) - N=\\s*([0-9]*)\\s*([A-Z]*)"),
+  ("adf15.py:_scrape_metadata_hydrogen_like:pec_index_header_match", "^C\\s*ISEL\\s*WAVELENGTH\\s*TRANSITION\\s*TYPE"),
+  ("adf15.py:_scrape_metadata_hydrogen_like:pec_full_transition_match", "^C\\s*([0-9]*)\\.\\s*([0-9]*\\.[0-9]*)\\s*([0-9]*)[\\(\\)\\.0-9\\s]*-\\s*([0-9]*)[\\(\\)\\.0-9\\s]*([A-Z]*)"),
+  ("adf15.py:_scrape_metadata_full:configuration_header_match", "^C\\s*Configuration\\s*\\(2S\\+1\\)L\\(w-1/2\\)\\s*Energy \\(cm\\*\\*-1\\)$"),
+  ("adf15.py:_scrape_metadata_full:pec_index_header_match", "^C\\s*ISEL\\s*WAVELENGTH\\s*TRANSITION\\s*TYPE"),
+  ("adf15.py:_scrape_metadata_full:configuration_string_match", "^C\\s*([0-9]*)\\s*((?:[0-9][SPDFG][0-9]\\s)*)\\s*\\(([0-9]*\\.?[0-9]*)\\)([0-9]*)\\(\\s*([0-9]*\\.?[0-9]*)\\)"),
+  ("adf15.py:_scrape_metadata_full:pec_full_transition_match", "^C\\s*([0-9]*)\\.?\\s*([0-9]*\\.[0-9]*)\\s*([0-9]*)[\\(\\)\\.0-9\\s]*-\\s*([0-9]*)[\\(\\)\\.0-9\\s]*([A-Z]*)"),
+  ("adf15.py:_extract_rate:wavelength_match", "^\\s*[0-9]*\\.[0-9]* ?a? +.*$"),
+  ("adf15.py:_extract_rate:block_id_match", "^\\s*[0-9]*\\.[0-9]* ?a?\\s*([0-9]*)\\s*([0-9]*).*/type *= *([a-zA-Z]*).*/isel *= * ([0-9]*)$"),
+  ("utility.py:readvalues:fieldslice1", "line[1 + nb_read_line * 10:(nb_read_line + 1) * 10]")
+]
+
+def pinnedSlices : List (String × Nat × Nat) := [
+  ("adf12.py:parse_adf12:slice1", 3, 5),
+  ("adf12.py:_parse_block:slice1", 38, 40),
+  ("adf12.py:_parse_block:slice2", 41, 43),
+  ("utility.py:parse_adas2x_rate:slice1", 3, 5),
+  ("utility.py:parse_adas2x_rate:slice2", 13, 22),
+  ("utility.py:parse_adas2x_rate:slice3", 29, 31),
+  ("utility.py:parse_adas2x_rate:slice4", 38, 46),
+  ("utility.py:parse_adas2x_rate:slice5", 1, 5),
+  ("utility.py:parse_adas2x_rate:slice6", 6, 10),
+  ("utility.py:parse_adas2x_rate:slice7", 17, 26),
+  ("utility.py:parse_adas2x_rate:slice8", 1, 5),
+  ("utility.py:parse_adas2x_rate:slice9", 12, 21),
+  ("utility.py:parse_adas2x_rate:slice10", 28, 37)
+]
+
+def pinnedReadvalues : List (String × String) := [
+  ("adf12.py:_parse_block:readvalues1", "1 6"),
+  ("adf12.py:_parse_block:readvalues2", "5 6"),
+  ("adf12.py:_parse_block:readvalues3", "5 6 type=int"),
+  ("adf12.py:_parse_block:readvalues4", "24 6"),
+  ("adf12.py:_parse_block:readvalues5", "24 6"),
+  ("adf12.py:_parse_block:readvalues6", "12 6"),
+  ("adf12.py:_parse_block:readvalues7", "12 6"),
+  ("adf12.py:_parse_block:readvalues8", "24 6"),
+  ("adf12.py:_parse_block:readvalues9", "24 6"),
+  ("adf12.py:_parse_block:readvalues10", "12 6"),
+  ("adf12.py:_parse_block:readvalues11", "12 6"),
+  ("adf12.py:_parse_block:readvalues12", "12 6"),
+  ("adf12.py:_parse_block:readvalues13", "12 6"),
+  ("utility.py:parse_adas2x_rate:readvalues1", "neb 8"),
+  ("utility.py:parse_adas2x_rate:readvalues2", "ndt 8"),
+  ("utility.py:parse_adas2x_rate:readvalues3", "neb 8"),
+  ("utility.py:parse_adas2x_rate:readvalues4", "ntt 8"),
+  ("utility.py:parse_adas2x_rate:readvalues5", "ntt 8")
+]
+
+def pinnedDivisions : List (String × String) := [
+  ("adf15.py:_scrape_metadata_hydrogen:div1", "10"),
+  ("adf15.py:_scrape_metadata_hydrogen_like:div1", "10"),
+  ("adf15.py:_scrape_metadata_full:div1", "10")
+]
+
+def pinnedFactors : List (String × String) := [
+  ("AngstromToNm", "0.1"),
+  ("Cm3ToM3", "1e-06"),
+  ("PerCm3ToPerM3", "1000000.0")
+]
 
 end Cherab.Adf.Text
